@@ -126,6 +126,31 @@ Definition commit (s : sys) (i : nat) (loc : bool) (fault : option nat) : outcom
       end
   end.
 
+(* Two committers on one master.  _check_bound_branch compares the local and the
+   master tip BEFORE it takes the master's write lock; _check_out_of_date_tree
+   re-reads the master under that lock.  [commit_race s i j]: checkout i's bound
+   commit, with checkout j's complete (non-local) commit running after i's tip
+   comparison and before i locks the master.  When i's commit does not get that far
+   (not bound, tips differ, or j = i) it is a plain commit and j does nothing.
+   i's revision id is fixed when its commit starts ([length (graph s)], row reserved);
+   j's revision is the next one. *)
+Definition commit_race (s : sys) (i j : nat) : outcome * sys :=
+  match nth_error (cos s) i with
+  | None => (Fail NoSuchCheckout, s)
+  | Some c =>
+      if is_bound c && opt_eqb (tip (lbranch c)) (tip (mbranch s)) && negb (i =? j)
+      then
+        let new := length (graph s) in
+        let s0 := mkS (graph s ++ [tparents c]) (mbranch s) (cos s) in
+        let s1 := snd (commit s0 j false None) in            (* the other committer *)
+        let ref := mbranch s1 in                             (* re-read under the master lock *)
+        if negb (opt_eqb (tip ref) (hd_error (tparents c))) && is_some (tip ref)
+        then (Fail OutOfDateTree, s1)
+        else let nb := mkB (Some new) (S (revno ref)) in
+             (Done, apply_writes s1 [WMaster nb; WLocal i nb; WTree i [new]])
+      else commit s i false None
+  end.
+
 (* ---- tree parents -------------------------------------------------------- *)
 
 (* DirStateWorkingTree.set_parent_trees: the first parent is always accepted;
@@ -281,7 +306,8 @@ Inductive op :=
 | Update (i : nat)
 | Pull (i : nat) (s : src) (back : option nat)
 | Bind (i : nat)
-| Unbind (i : nat).
+| Unbind (i : nat)
+| CommitRace (i j : nat).
 
 Definition step (s : sys) (o : op) : outcome * sys :=
   match o with
@@ -290,6 +316,7 @@ Definition step (s : sys) (o : op) : outcome * sys :=
   | Pull i sr back => pull s i sr back
   | Bind i => set_bound s i true
   | Unbind i => set_bound s i false
+  | CommitRace i j => commit_race s i j
   end.
 
 Fixpoint run (s : sys) (ops : list op) : sys :=
